@@ -273,6 +273,7 @@ func runC03(c *Ctx, r *Report) {
 
 	// ---- obligation 6: decoder adds only complete, valid messages -----------------
 	c03DecoderAdds(c, r)
+	c03ContainerWriters(c, r)
 
 	_ = info
 	r.need("containers", len(conts), 17)
@@ -1050,4 +1051,107 @@ func c03MessageFlows(c *Ctx, r *Report) {
 		}
 		r.check(ok && n >= 2, "C03-6-message-flows", "decodeFileData/add-iff-valid", c.pos(fn.Pos()), "each parsed message is added exactly when it is a valid (known) message value", "an add site in decodeFileData is guarded by something other than IsValid() of the parsed message")
 	}
+}
+
+// c03ContainerWriters: obligation 7. The slots and lists of the 17 containers are written only by
+// the container's own router (add). Anywhere else in the library a container member may be read
+// (len, range, index loads, returned, compared) but not assigned, not written through an index,
+// and not handed to a function or boxed into an interface that could reorder or modify it (sort,
+// reflect): the stream order and last-wins content the routers establish is what callers see.
+func c03ContainerWriters(c *Ctx, r *Report) {
+	isCont := map[*types.Named]bool{}
+	for _, ct := range c.containers() {
+		isCont[ct] = true
+	}
+	contOf := func(t types.Type) *types.Named {
+		pt, ok := t.Underlying().(*types.Pointer)
+		if !ok {
+			return nil
+		}
+		n, _ := pt.Elem().(*types.Named)
+		if n != nil && isCont[n] {
+			return n
+		}
+		return nil
+	}
+	nSites, nOutside := 0, 0
+	for _, fn := range c.moduleFuncs() {
+		if fnPkgPath(fn) != modPath || !inLib(fn) {
+			continue
+		}
+		for _, b := range fn.Blocks {
+			for _, ins := range b.Instrs {
+				fa, ok := ins.(*ssa.FieldAddr)
+				if !ok {
+					continue
+				}
+				ct := contOf(fa.X.Type())
+				if ct == nil {
+					continue
+				}
+				nSites++
+				// the router itself
+				if fn.Signature.Recv() != nil && fn.Name() == "add" && contOf(fn.Signature.Recv().Type()) == ct {
+					continue
+				}
+				nOutside++
+				member := ct.Obj().Name() + "." + ct.Underlying().(*types.Struct).Field(fa.Field).Name()
+				key := fn.Name() + "/" + member
+				bad := ""
+				var visit func(v ssa.Value, isAddr bool, depth int)
+				visit = func(v ssa.Value, isAddr bool, depth int) {
+					if bad != "" || depth > 6 || v.Referrers() == nil {
+						return
+					}
+					for _, ref := range *v.Referrers() {
+						switch u := ref.(type) {
+						case *ssa.DebugRef:
+						case *ssa.Store:
+							if isAddr && u.Addr == v {
+								bad = "assigned at " + c.pos(u.Pos())
+							} else if u.Val == v {
+								bad = "stored elsewhere at " + c.pos(u.Pos()) + " (alias that can be modified later)"
+							}
+						case *ssa.UnOp:
+							if u.Op == token.MUL {
+								visit(u, false, depth+1)
+							}
+						case *ssa.IndexAddr:
+							visit(u, true, depth+1)
+						case *ssa.FieldAddr:
+							visit(u, true, depth+1)
+						case *ssa.Slice:
+							visit(u, false, depth+1)
+						case *ssa.Index, *ssa.Field, *ssa.BinOp, *ssa.Return, *ssa.Phi, *ssa.If, *ssa.Extract:
+						case *ssa.MakeInterface:
+							bad = "boxed into an interface at " + c.pos(u.Pos()) + " (reflect or sort can modify it)"
+						case *ssa.Call:
+							cc := u.Common()
+							if bi, ok := cc.Value.(*ssa.Builtin); ok && (bi.Name() == "len" || bi.Name() == "cap") {
+								continue
+							}
+							if bi, ok := cc.Value.(*ssa.Builtin); ok && bi.Name() == "copy" && len(cc.Args) == 2 && cc.Args[1] == v && cc.Args[0] != v {
+								continue
+							}
+							if f := cc.StaticCallee(); f != nil && f.Signature.Recv() != nil && len(cc.Args) > 0 && cc.Args[0] == v && !isAddr {
+								// method call on a loaded element value (e.g. expandComponents on *Msg): element methods are covered by C18/C08
+								continue
+							}
+							bad = "passed to " + calleeName(cc) + " at " + c.pos(u.Pos())
+						default:
+							bad = fmt.Sprintf("used by %T at %s", ref, c.pos(ref.Pos()))
+						}
+						if bad != "" {
+							return
+						}
+					}
+				}
+				visit(fa, true, 0)
+				r.check(bad == "", "C03-7-container-writers", key, c.pos(fa.Pos()), "read only outside the router", "container member "+member+" is "+bad+" outside "+ct.Obj().Name()+".add: the stream order / last-wins content established by the router can change after the message was stored")
+			}
+		}
+	}
+	r.set("container_member_accesses", nSites)
+	r.need("container member accesses", nSites, 60)
+	r.ok("C03-7-container-writers", "scan", "", fmt.Sprintf("%d accesses to container members, %d outside the routers", nSites, nOutside))
 }
